@@ -27,6 +27,12 @@ impl WorkspaceLock {
             .expect("workspace lock semaphore closed");
         WorkspaceGuard { _permit: permit }
     }
+
+    /// Verification probe: the single permit is currently available.
+    #[cfg(rip_verif)]
+    pub(crate) fn verif_free(&self) -> bool {
+        self.semaphore.available_permits() == 1
+    }
 }
 
 pub(crate) fn requires_workspace_lock(tool_name: &str) -> bool {
